@@ -13,8 +13,11 @@ def main():
     ap.add_argument("pid")
     ap.add_argument("--tier", default=os.environ.get("VERIF_TIER", "quick"), choices=["quick", "thorough"])
     ap.add_argument("--replay")
+    ap.add_argument("--freeze-baseline", action="store_true",
+                    help="developer: record the obligations discharged by this run in baseline/obligations.json")
     a = ap.parse_args()
     seed = int(os.environ.get("VERIF_SEED", "0") or 0)
+    os.environ["Y0VC_TIER"] = a.tier
     from . import pipeline
     if a.replay:
         return replay(a.pid, a.replay)
@@ -24,7 +27,15 @@ def main():
         extra = getattr(mod, "extra", None)
     except ModuleNotFoundError:
         pass
-    return pipeline.run(a.pid, a.tier, seed, extra=extra)
+    rc = pipeline.run(a.pid, a.tier, seed, extra=extra)
+    if a.freeze_baseline:
+        ev = json.load(open(pipeline.EVID / f"{a.pid}.json"))
+        base = pipeline.load_baseline()
+        base[a.pid] = sorted(o["id"] for o in ev["coverage"]["obligation_table"] if o["status"] == "discharged")
+        pipeline.BASELINE.parent.mkdir(exist_ok=True)
+        pipeline.BASELINE.write_text(json.dumps(base, indent=1))
+        print(f"baseline for {a.pid}: {len(base[a.pid])} obligations")
+    return rc
 
 
 def replay(pid, path):
